@@ -50,8 +50,8 @@ type BOptions struct {
 	// (a scheduler that is briefly unreachable), and lists the pids afterwards
 	FlakyQueue bool
 	Fault      *Fault
-	Slow      map[string]int // job key -> milliseconds before the body
-	Gate      []string       // job keys that wait for Release
+	Slow       map[string]int // job key -> milliseconds before the body
+	Gate       []string       // job keys that wait for Release
 	// mrp-side kill / signal at its KillAt-th file-system effect (fsmrp)
 	KillAt  int
 	KillSig string // KILL (default) | TERM | INT
@@ -111,7 +111,7 @@ type BResult struct {
 	TimedOut bool
 	Console  string
 	Obs      []BObs
-	Effects  []string          // mrp's numbered effects (fsmrp with EffectLog)
+	Effects  []string            // mrp's numbered effects (fsmrp with EffectLog)
 	JobFx    map[string][]string // monitor effects per job key (fsjob)
 	TopOuts  string
 	Lock     bool // <ps>/_lock still exists
